@@ -25,6 +25,8 @@ KINDS = {
     "metavar-replace": ("@@\nvar x expression\nvar n identifier\n@@\n-import n \"{T}\"\n+import n \"{N}\"\n\n-n.F(x)\n+n.F2(x)\n", ["minus-mv"]),
     "metavar-match-add": ("@@\nvar x expression\nvar n identifier\n@@\n import n \"{T}\"\n+import \"{N}\"\n\n-n.F(x)\n+{n}.F(n.Conv(x))\n", ["context-mv"]),
     "metavar-unalias": ("@@\nvar x expression\nvar n identifier\n@@\n-import n \"{T}\"\n+import \"{T}\"\n\n-n.F(x)\n+{r}.F(x)\n", ["minus-mv"]),
+    # the first match in source order sits where the replacement does not fit (a field name); later ones are rewritten
+    "add-unfit-first": ("@@\n@@\n+import \"{N}\"\n\n-legacyName\n+{n}.Name\n", []),
     "same-name-takeover": ("@@\nvar x expression\n@@\n-import {TS}\n+import {t} \"{N}\"\n\n-{t}.F(x)\n+{t}.F(x, 1)\n", ["minus"]),
 }
 
@@ -60,7 +62,12 @@ def gen(rng, k):
     layout = rng.choice(["grouped", "grouped", "single", "blocks", "commented", "mixed"])
     remaining = rng.random() < 0.5                         # a use of the target the patch does not rewrite
     body = []
-    if kind in ("add", "add-named"):
+    if kind == "add-unfit-first":
+        body = ["type first struct {\n\tlegacyName int\n}", "func a(p int) { _ = legacyName; use(legacyName + p) }"]
+        if has_target:
+            body.append("func keep() { %s.Other() }" % t)
+        body_fixed = True
+    elif kind in ("add", "add-named"):
         body.append("func a() { legacy(1); legacy(a + b) }")
         if has_target:
             body.append("func keep() { %s.Other() }" % t)
@@ -77,10 +84,15 @@ def gen(rng, k):
             body.append("func u_%s() { %s }" % (re.sub(r"\W", "_", key), USES[key]))
         if n == "dup":
             body.append("func u_dup() { dup.D() }")
-    rng.shuffle(body)
+    # a local variable / parameter named like the package is not a reference to the package
+    local_only = bool(roles) and kind in ("replace", "delete", "rename") and not remaining and rng.random() < 0.4
+    if local_only:
+        body.append("func local(%s *Endpoint) string { return %s.Host + %s.Path }" % (t, t, t))
+    if kind != "add-unfit-first":
+        rng.shuffle(body)
     src = "package p\n\n" + render_imports(imps, layout, rng) + "\n\n".join(body) + "\n"
     return {"kind": kind, "patch": patch, "src": src, "imports": imps, "target": (fform, tpath, treal) if has_target else None, "roles": roles,
-            "new": (npath, nreal), "t": t, "layout": layout, "remaining": remaining if roles else None}
+            "new": (npath, nreal), "t": t, "layout": layout, "remaining": remaining if roles else None, "local_only": local_only}
 
 
 def render_imports(imps, layout, rng):
@@ -144,7 +156,7 @@ def judge(c, o):
         if p not in mentioned and I[(n, p)] == 0:
             bad.append(("import %s, which the patch does not mention, was added" % spec(n, p), None))
     # '+' imports
-    if c["kind"] in ("add", "replace", "replace-all-selectors", "metavar-match-add"):
+    if c["kind"] in ("add", "add-unfit-first", "replace", "replace-all-selectors", "metavar-match-add"):
         if (None, c["new"][0]) not in O:
             bad.append(("the '+' import \"%s\" (unnamed) is missing from the output" % c["new"][0], None))
     if c["kind"] == "add-named" and ("nn", c["new"][0]) not in O:
@@ -164,7 +176,8 @@ def judge(c, o):
         fform, tpath, treal = c["target"]
         key = (fform, tpath)
         name = fform or treal
-        still = uses_name(out, name)
+        # selectors on a parameter of that name (func local(<name> *Endpoint)) do not refer to the package
+        still = uses_name(re.sub(r"(?m)^func local\(.*$", "", out), name)
         taken = c["kind"] == "same-name-takeover" or (c["kind"] == "metavar-replace") or \
             (c["kind"] == "metavar-unalias" and (fform is None or name == tpath.rsplit("/", 1)[-1]))    # the '+' import takes the name over
         base_differs = fform is None and tpath.rsplit("/", 1)[-1] != treal
@@ -191,6 +204,8 @@ def main():
     for k, (c, pair, o) in enumerate(zip(cases, pairs, res)):
         ck.count((pair[1], pair[3]), nontrivial=not o["skipped"] and "ok" in (o.get("isteps") or []))
         ck.tally("kind", c["kind"]); ck.tally("layout", c["layout"]); ck.tally("other_imports", len(c["imports"]))
+        if c.get("local_only"):
+            ck.tally("local_shadow", c["kind"])
         ck.tally("target", "%s / remaining use: %s" % ("absent" if not c["target"] else ("unnamed" if c["target"][0] is None else "named"), c["remaining"]))
         if o["skipped"]:
             ck.tally("verdict", "skipped: " + o["skipped"][:50])
